@@ -125,6 +125,7 @@ func subscribe(bus *eventbus.EventBus, src *busmodel.OptSource, h H, idx int, c0
 	if h.Seq {
 		opts = append(opts, src.Sequential())
 	}
+	opts = busmodel.Arrange(opts, idx%2 == 1) // odd handlers pass their options in reverse order
 	if h.T == 0 {
 		opts = append(opts, filterOpt(h.Filter, func(e EvA) int { return e.ID })...)
 		if h.Ctx {
